@@ -568,6 +568,17 @@ class ExtendedIndexedOperand(Operand):
             if type(self.left) == str:
                 self.left = Value.create_from_str(self.left)
 
+            if "PCR" not in self.right and (self.left.is_address() or self.left.is_address_expression()):
+                # A label used as a constant offset is not known yet, use a 16-bit offset
+                return CodePackage(
+                    op_code=NumericValue(self.instruction.mode.ind),
+                    post_byte=NumericValue(raw_post_byte | 0x99),
+                    additional=self.left,
+                    size=size + 2,
+                    max_size=size + 2,
+                    additional_needs_resolution=True,
+                )
+
             if self.left.is_address():
                 additional_needs_resolution = True
                 self.left = NumericValue(self.left.int)
@@ -701,6 +712,17 @@ class IndexedOperand(Operand):
         else:
             if "+" in self.right or "-" in self.right:
                 raise OperandTypeError("[{}] invalid indexed expression".format(self.operand_string))
+
+            if "PCR" not in self.right and (self.left.is_address() or self.left.is_address_expression()):
+                # A label used as a constant offset is not known yet, use a 16-bit offset
+                return CodePackage(
+                    op_code=NumericValue(self.instruction.mode.ind),
+                    post_byte=NumericValue(raw_post_byte | 0x89),
+                    additional=self.left,
+                    size=size + 2,
+                    max_size=size + 2,
+                    additional_needs_resolution=True,
+                )
 
             if self.left.is_address():
                 additional_needs_resolution = True
